@@ -21,7 +21,7 @@ TIERS = {
     'thorough': {'cases': 2547 + 60000, 'wall': 1500, 'chunk': 24},
 }
 RULE = ('cases 0..2546: the SINGLE-DAMAGE MATRIX - every alien expression (ill-typed, empty-valued, undefined, not '
-        'constant, huge) alone in each of 25 small host positions (argument, statement, declaration, condition, array '
+        'constant, huge) alone in each of 24 small host positions (argument, statement, declaration, condition, array '
         'length, index, try body, stop handler, defeat function, return, operand, ??, !truth_is_defeat, global '
         'initialiser used / unused / const / used in a function, global array length and element, element store, for '
         'step) and every bad statement alone in 9 host contexts, so that one error that slips through the type checker '
